@@ -319,8 +319,47 @@ def correspondence(ctx, model, harness, sc, what):
     return res
 
 
+def mempool_step(g, hi, rng, subv):
+    """mempool activity: payloads that are NOT part of any block are submitted (with the VBK context the mempool needs
+    to connect them); they endorse arbitrary blocks, so many of them fail on top of the current tip (block of a
+    competing fork, stale after a reorg, outside the settlement interval); then generatePopData / removeAll / cleanUp"""
+    k = rng.below(100)
+    ids = sorted(g.alt, key=lambda a: int(a[1:]))
+
+    def submit_ctx(v):
+        for x in g.vpath({"v0"}, v):
+            if x not in subv:
+                hi.on("sub", x)
+                subv.add(x)
+    if k < 38:
+        cands = [a for a in ids if a != "a0"]
+        if cands:
+            e = rng.choice(cands[-6:] if rng.chance(1, 2) else cands)
+            t = g.make_atv(e, payout=rng.choice(["010203", "aabb"]))
+            submit_ctx(g.atv[t]["bop"])
+            hi.on("sub", t)
+            if rng.chance(1, 2):
+                hi.on("gen")
+    elif k < 50:
+        vs = sorted(g.vbk, key=lambda v: int(v[1:]))
+        e = rng.choice(vs[-8:])
+        w = g.make_vtb(e, "b0")
+        submit_ctx(g.vtb[w]["containing"])
+        hi.on("sub", w)
+    elif k < 58:
+        v = g.mine_vbk()
+        submit_ctx(v)
+    elif k < 86:
+        hi.on("gen")
+    elif k < 94:
+        hi.on("rmall", rng.choice(ids))
+    else:
+        hi.on("cleanup")
+
+
 def world_histories(ctx, n_hist, steps, extra_ops=True):
-    """general honest histories with payloads (props/_world.py History); returns list of line lists"""
+    """general honest histories with payloads (props/_world.py History) interleaved with mempool activity;
+    returns list of (line list, op histogram)"""
     out = []
     for h in range(n_hist):
         rng = ctx.rng.fork()
@@ -328,10 +367,13 @@ def world_histories(ctx, n_hist, steps, extra_ops=True):
                "alt_fd": rng.choice([3, 5, 100]), "vbk_fd": rng.choice([3, 11])}
         g = _world.WorldGen(rng, cfg)
         hi = _world.History(g)
+        subv = set()
         for _ in range(steps):
             hi.step()
             if extra_ops and rng.chance(1, 12):
                 hi.on("obs", "full")
+            if extra_ops and rng.chance(1, 3):
+                mempool_step(g, hi, rng, subv)
         out.append((list(g.lines), dict(hi.ops)))
     return out
 
